@@ -475,7 +475,7 @@ class _function(object):
         elif type(other) is not _function:
             return NotImplemented
 
-        if 1 != len(self) != len(other) != 1: 
+        if 1 != len(self) != _veclen(other) != 1: 
             raise ValueError('incompatible lengths')
 
         f = _function()
@@ -521,11 +521,11 @@ class _function(object):
         elif type(other) is not _function:
             return NotImplemented
 
-        if len(self) != len(other) != 1: 
+        if len(self) != _veclen(other) != 1: 
             raise ValueError('incompatible lengths')
 
         if _ismatrix(other):
-            if 1 == len(self._constant) != len(other): 
+            if 1 == len(self._constant) != _veclen(other): 
                 self._constant = self._constant + other
             else:
                 self._constant += other
@@ -565,7 +565,7 @@ class _function(object):
         elif type(other) is not _function:
             return NotImplemented
 
-        if 1 != len(self) != len(other) != 1: 
+        if 1 != len(self) != _veclen(other) != 1: 
             raise ValueError('incompatible lengths')
 
         f = _function()
@@ -597,7 +597,7 @@ class _function(object):
         # convert other to matrix (dense 'd' or sparse) or _function
         if type(other) is int or type(other) is float:
             other = matrix(other, tc='d')
-        elif _isdmatrix(other):
+        elif _ismatrix(other):
             if other.size[1] != 1: 
                 raise ValueError('incompatible dimensions')
         elif type(other) is variable:
@@ -605,7 +605,7 @@ class _function(object):
         elif type(other) is not _function:
             return NotImplemented
 
-        if 1 != len(self) != len(other) != 1: 
+        if 1 != len(self) != _veclen(other) != 1: 
             raise ValueError('incompatible lengths')
 
         f = _function()
@@ -645,11 +645,11 @@ class _function(object):
         elif type(other) is not _function:
             return NotImplemented
 
-        if len(self) != len(other) != 1: 
+        if len(self) != _veclen(other) != 1: 
             raise ValueError('incompatible lengths')
 
         if _ismatrix(other):
-            if 1 == len(self._constant) != len(other): 
+            if 1 == len(self._constant) != _veclen(other): 
                 self._constant = self._constant - other
             else:
                 self._constant -= other
@@ -3102,6 +3102,17 @@ def dot(x,y):
         raise TypeError('invalid argument types or incompatible '\
             'dimensions')
 
+
+
+def _veclen(a):
+
+    '''
+    Number of rows of a dense or sparse column vector (len() of a sparse 
+    matrix is its number of nonzeros), len(a) for a function.
+    '''
+
+    if _ismatrix(a): return a.size[0]
+    else: return len(a)
 
 
 def _isscalar(a):   
